@@ -122,13 +122,17 @@ func (s *Server) servePacket(pc net.PacketConn) error {
 	// closeCh is used to receive notifications of socket closures from
 	// packetConn, which allows us to remove stale connections (whose
 	// proxy handlers have completed) from the udpConns map.
-	closeCh := make(chan string, 10)
+	closeCh := make(chan *packetConn, 10)
 	for {
 		select {
-		case addr := <-closeCh:
+		case closed := <-closeCh:
 			// UDP connection is closed (either implicitly through timeout or by
-			// explicit call to Close()).
-			delete(udpConns, addr)
+			// explicit call to Close()). It notifies us twice if it timed out; by
+			// the second time the client may have got a new connection already,
+			// which must stay.
+			if addr := closed.addr.String(); udpConns[addr] == closed {
+				delete(udpConns, addr)
+			}
 
 		case pkt := <-packets:
 			if pkt.err != nil {
@@ -251,7 +255,7 @@ type packetConn struct {
 	// closed is closed by Close(). readCh itself is never closed, because the
 	// server loop, not packetConn, is the sender on it.
 	closed  chan struct{}
-	closeCh chan string
+	closeCh chan *packetConn
 	// If not nil, then the previous Read() call didn't consume all the data
 	// from the buffer, and this packet will be reused in the next Read()
 	// without waiting for readCh.
@@ -357,7 +361,7 @@ func (pc *packetConn) Read(b []byte) (n int, err error) {
 	// Although Close() also does this, we inform the server loop early about
 	// the closure to ensure that if any new packets are received from this
 	// connection in the meantime, a new handler will be started.
-	pc.closeCh <- pc.addr.String()
+	pc.closeCh <- pc
 	// Returning EOF here ensures that io.Copy() waiting on the downstream for
 	// reads will terminate.
 	return 0, io.EOF
@@ -385,7 +389,7 @@ func (pc *packetConn) Close() error {
 	}
 	// We may have already done this earlier in Read(), but just in case
 	// Read() wasn't being called, (re-)notify server loop we're closed.
-	pc.closeCh <- pc.addr.String()
+	pc.closeCh <- pc
 	// We don't call net.PacketConn.Close() here as we would stop the UDP
 	// server.
 	return nil
